@@ -194,6 +194,11 @@ class RecheckCheck:
             "scaled model S = same code with BLOCK_SIZE rebound; every S "
             "disagreement is reported only after its R image fails too",
         ]
+        self.nontrivial_rule = (
+            "a (world, family, disk) state is non-trivial if the disk is "
+            "damaged, or if it belongs to an environment form other than "
+            "plain intact content; intact baseline states are the trivial "
+            "ones; counted = distinct non-trivial states")
         self.rule = (
             "nested product: scale x P x shape x size vector x metafile family "
             "x content path (root|parent) x damage set; state = distinct "
@@ -649,6 +654,8 @@ class RecheckCheck:
                             "reference metafile does not verify its own "
                             f"payload: {fam} {w}")
                     res.states += 1
+                    if dmg_set:
+                        res.extra["nontrivial"] += 1
                     for where, cpath in (("root", root), ("parent", parent),
                                          ("cli-root", root),
                                          ("cli-parent", parent),
@@ -964,6 +971,8 @@ class RecheckCheck:
                             finally:
                                 os.chdir(home)
                             res.states += 1
+                            if eff or form != "sparse":
+                                res.extra["nontrivial"] += 1
                             res.transitions += 1
                             res.evals += 1
                             res.validated += 1
